@@ -1,12 +1,16 @@
 #!/bin/sh
-# Runs the quick tier of the given properties (default: all) against /repo, evidence into /verif/evidence.
-cd /verif
+# Runs the quick tier of the given properties (default: all) against /repo.
+# Works from whichever copy of /verif it is started in (so `vp run -- sh tools_quick_all.sh`
+# exercises a committed snapshot while /verif is being edited): evidence and logs go under that copy.
+here=$(cd "$(dirname "$0")" && pwd)
+cd "$here"
 export GOFLAGS=-mod=mod GOPROXY=off GOSUMDB=off GOTOOLCHAIN=local
-(cd gosym && go build -o /verif/bin/verifcheck ./cmd/verifcheck) || exit 2
+export VERIF_DIR="$here" VERIF_EVIDENCE_DIR="$here/evidence" VERIF_REPLAY_DIR="$here/replays"
+(cd gosym && go build -o "$here/bin/verifcheck" ./cmd/verifcheck) || exit 2
 props=${*:-C01 C02 C03 C04 C05 C06 C07 C08 C09 C10 C11 C12 C13 C14 C15 C16 C17 C18 C19 C20}
-mkdir -p /tmp/vq
+mkdir -p "$here/logs"
 for p in $props; do
   s=$(date +%s)
-  bin/verifcheck $p quick > /tmp/vq/q_$p.log 2>&1; rc=$?
-  echo "$p exit=$rc $(( $(date +%s)-s ))s viol=$(grep -c '^VIOLATION' /tmp/vq/q_$p.log) known=$(grep -c '^KNOWN' /tmp/vq/q_$p.log) inconc=$(grep -c '^INCONC\|^ENGINE\|^HARNESS-VAC\|^UNCONF\|^TRANSL' /tmp/vq/q_$p.log) nonexh=$(grep -c 'exhaustive=false' /tmp/vq/q_$p.log)"
+  bin/verifcheck $p ${VERIF_TIER_ARG:-quick} > logs/q_$p.log 2>&1; rc=$?
+  echo "$p exit=$rc $(( $(date +%s)-s ))s viol=$(grep -c '^VIOLATION' logs/q_$p.log) known=$(grep -c '^KNOWN' logs/q_$p.log) inconc=$(grep -c '^INCONC\|^ENGINE\|^HARNESS-VAC\|^UNCONF\|^TRANSL' logs/q_$p.log) nonexh=$(grep -c 'exhaustive=false' logs/q_$p.log)"
 done
